@@ -75,6 +75,13 @@ fn item_descr<E>(it: &ItemRec<E>) -> String {
     }
 }
 
+const SIG_F5: &str = "tail-limit-decrease-emits-old-minus-new-popfronts";
+const SIG_F7: &str = "sort-forwards-truncate-verbatim";
+
+fn is_known_shape(sig: &str) -> bool {
+    sig == SIG_F5 || sig == SIG_F7
+}
+
 /// Signature of a first divergence at stage `kind`. The two recognisers below
 /// are the only place where known findings are characterised; everything else
 /// gets a generic signature that no known_findings.json entry can match.
@@ -88,7 +95,7 @@ fn classify<E: El>(kind: StageKind, failure: &str, it: &ItemRec<E>, outputs: &[V
             let surplus_inapplicable = failure == "inapplicable" && n <= old - new && n > len - new;
             let full = failure == "view" && n == old - new;
             if surplus_inapplicable || full {
-                return "tail-limit-decrease-emits-old-minus-new-popfronts".into();
+                return SIG_F5.into();
             }
         }
     }
@@ -102,7 +109,7 @@ fn classify<E: El>(kind: StageKind, failure: &str, it: &ItemRec<E>, outputs: &[V
                 let mut view_p = view_before.clone();
                 for p in 0..outputs.len() {
                     if outputs[p] == diffs[j] && view_ok(kind, &input_j, None, &view_p).is_ok() {
-                        return "sort-forwards-truncate-verbatim".into();
+                        return SIG_F7.into();
                     }
                     if apply_checked(&outputs[p], &mut view_p).is_err() {
                         break;
